@@ -4,6 +4,8 @@ From V.Ts Require Import Model Proofs Answers Extra Exact Multi MultiProofs Repo
 From V.Mgr Require Model.
 From V.C06 Require Compose08.
 From V.Link Require C06_C08.
+From V.C07 Require Model Compose.
+From V.Link Require C07_C06.
 Import ListNotations.
 Open Scope N_scope.
 From V.C08 Require Import Properties.
@@ -239,3 +241,21 @@ Check (C08_multi_stream_wellformed_under_manager :
   V.Link.C06_C08.mfeasible_rest env0 (minit cap cfg n0) tr = true ->
   (k < length cfg)%nat ->
   exists b, wf_run false (pevs q (comp_outs k (mrun (minit cap cfg n0) tr))) = Some b).
+Check (C08_stream_wellformed_on_node :
+  forall (i n : nat) (L : V.Mgr.Model.limits) (es : list V.C07.Model.nev) tr ka T n0 q,
+  (i < n)%nat ->
+  V.C07.Compose.node_env_trace L (V.C07.Model.node_init n) [] [] es ->
+  V.Link.C07_C06.fresh_ids [] es -> V.Link.C07_C06.no_die i es ->
+  filter V.C06.Compose08.is_conn (map snd tr) =
+    V.C06.Compose08.xproj (V.Link.C07_C06.node_xevs i L (V.C07.Model.node_init n) es) ->
+  V.C06.Compose08.feasible_rest env0 (init ka T n0) tr = true ->
+  exists b, wf_run false (pevs q (concat (run (init ka T n0) tr))) = Some b).
+Check (C08_alternation_on_node :
+  forall (i n : nat) (L : V.Mgr.Model.limits) (es : list V.C07.Model.nev) tr ka T n0 q,
+  (i < n)%nat ->
+  V.C07.Compose.node_env_trace L (V.C07.Model.node_init n) [] [] es ->
+  V.Link.C07_C06.fresh_ids [] es -> V.Link.C07_C06.no_die i es ->
+  filter V.C06.Compose08.is_conn (map snd tr) =
+    V.C06.Compose08.xproj (V.Link.C07_C06.node_xevs i L (V.C07.Model.node_init n) es) ->
+  V.C06.Compose08.feasible_rest env0 (init ka T n0) tr = true ->
+  alternates false (conn_evs q (concat (run (init ka T n0) tr)))).
